@@ -46,3 +46,6 @@ class Oracle:
             self.p.wait(timeout=5)
         except Exception:
             self.p.kill()
+
+    def concurrent(self, sources, options=None, rounds=4):
+        return self.req(cmd='concurrent', sources=sources, options=options or {}, rounds=rounds)
